@@ -145,8 +145,17 @@ inline void option_program(Tins::PDU& layer, Src& s, std::vector<std::string>& p
                 static const uint8_t EH[] = {0, 43, 44, 60, 51, 50, 135, 59, 6, 17};
                 uint8_t code = s.chance(80) ? EH[s.pick(sizeof EH)] : (uint8_t)s.edgy(8);
                 std::vector<uint8_t> b = s.bytes(gen_len(s, 255));
+                if (spoof && !b.empty() && b[0] >= 0xf0) {
+                    // (size-accounting checks only) a body the one-octet Hdr Ext Len cannot express: 2046 octets is the most the
+                    // wire format carries; the API accepts more and size() / serialize() must still agree with each other
+                    static const uint16_t BIG[8] = {2038, 2046, 2047, 2048, 2054, 2055, 3000, 4094};
+                    size_t want = BIG[b[0] & 7];
+                    size_t had = b.size();
+                    b.resize(want);
+                    for (size_t k = had; k < want; ++k) b[k] = (uint8_t)(k * 3 + had);
+                }
                 { IPv6::ext_header o_(code, b.begin(), b.end()); if (b.size() & 1) v6->add_header(o_); else v6->add_header(std::move(o_)); }
-                d << "IPv6::add_header(" << (int)code << "," << hex(b) << ")";
+                d << "IPv6::add_header(" << (int)code << "," << (b.size() > 300 ? std::to_string(b.size()) + " octets" : hex(b)) << ")";
             } else if (DHCP* dh = dynamic_cast<DHCP*>(&layer)) {
                 uint8_t code = (uint8_t)s.edgy(8);
                 if (remove) { bool r = dh->remove_option((DHCP::OptionTypes)code); d << "DHCP::remove_option(" << (int)code << ")=" << r; }
@@ -180,8 +189,28 @@ inline void option_program(Tins::PDU& layer, Src& s, std::vector<std::string>& p
             } else if (RTP* rtp = dynamic_cast<RTP*>(&layer)) {
                 uint32_t v = (uint32_t)s.edgy(32);
                 switch (s.range(0, 3)) {
-                    case 0: rtp->add_csrc_id(v); d << "RTP::add_csrc_id(" << v << ")"; break;
-                    case 1: rtp->add_extension_data(v); d << "RTP::add_extension_data(" << v << ")"; break;
+                    case 0:
+                        try { rtp->add_csrc_id(v); d << "RTP::add_csrc_id(" << v << ")"; }
+                        catch (const std::logic_error&) { d << "RTP::add_csrc_id(" << v << ") refused at capacity"; }
+                        break;
+                    case 1:
+                        if (spoof && (v & 0xff) == 0xfe) {
+                            // fill a list up to (and one past) what its count field can say: the add that does not fit must be
+                            // refused with the documented logic_error and leave the object as it was
+                            const bool ext = (v & 0x100) != 0;
+                            const size_t cap = ext ? 65535 : 15, have = ext ? rtp->extension_length() : (size_t)rtp->csrc_count();
+                            const size_t target = cap - 1 + ((v >> 9) & 3);          // cap-1, cap, cap+1, cap+2 elements wanted
+                            size_t added = 0, refused = 0;
+                            for (size_t k = have; k < target; ++k) {
+                                try { if (ext) rtp->add_extension_data((uint32_t)k); else rtp->add_csrc_id((uint32_t)k); ++added; }
+                                catch (const std::logic_error&) { ++refused; }
+                            }
+                            d << "RTP::" << (ext ? "add_extension_data" : "add_csrc_id") << " x" << added << " (" << refused << " refused at capacity)";
+                            break;
+                        }
+                        try { rtp->add_extension_data(v); d << "RTP::add_extension_data(" << v << ")"; }
+                        catch (const std::logic_error&) { d << "RTP::add_extension_data(" << v << ") refused at capacity"; }
+                        break;
                     case 2: d << "RTP::remove_csrc_id(" << v << ")=" << rtp->remove_csrc_id(v); break;
                     default: d << "RTP::remove_extension_data(" << v << ")=" << rtp->remove_extension_data(v); break;
                 }
@@ -332,7 +361,14 @@ inline Built build_packet(Src& s, Ctx& ctx, const BuildOpts& o = BuildOpts()) {
                     case 2: add(new DHCP(), "DHCP"); break;
                     case 3: add(new DHCPv6(), "DHCPv6"); break;
                     case 4: add(new RTP(), "RTP"); add(gen_raw(s, o.max_payload), "RawPDU"); break;
-                    case 5: add(new VXLAN(), "VXLAN"); add(new EthernetII(), "EthernetII"); add(new IP("1.1.1.1", "2.2.2.2"), "IP"); add(new UDP(1, 2), "UDP"); add(gen_raw(s, o.max_payload), "RawPDU"); break;
+                    case 5: {
+                        // the tunnelled frame is a frame like any other: it may carry VLAN tags of its own (0, 1 or 2)
+                        add(new VXLAN(), "VXLAN"); add(new EthernetII(), "EthernetII");
+                        unsigned tags = (unsigned)s.weighted({5, 2, 2});
+                        for (unsigned t = 0; t < tags; ++t) add(new Dot1Q(), "Dot1Q");
+                        add(new IP("1.1.1.1", "2.2.2.2"), "IP"); add(new UDP(1, 2), "UDP"); add(gen_raw(s, o.max_payload), "RawPDU");
+                        break;
+                    }
                     case 6: add(new BootP(), "BootP"); break;
                     default: break;
                 }
